@@ -676,9 +676,10 @@ async fn gen_action<S: StateRead>(
         "ics20_withdrawal" => {
             let (local, remote) = super::ibc::CHANNELS[rng.gen_range(0..super::ibc::CHANNELS.len())];
             // from a bridge (signed by its withdrawer, memo required) or from a plain account
-            let from_bridge = !bridge_list.is_empty() && rng.gen_bool(0.3);
+            let from_bridge = (!bridge_list.is_empty() && rng.gen_bool(0.3)) || (hostile && rng.gen_bool(0.3));
             let (from, bridge, memo, src_addr) = if from_bridge {
-                let b = *bridge_list.choose(rng)?;
+                // hostile: name an ordinary (non-bridge) funded account as the "bridge" to withdraw from
+                let b = if hostile && rng.gen_bool(0.5) { any_user(rng) } else { *bridge_list.choose(rng).unwrap_or(&any_user(rng)) };
                 let w = if hostile && rng.gen_bool(0.4) { any_user(rng) } else { key_for(u, state, "bridge_withdrawer", Some(b)).await? };
                 let ev = match (rng.gen_bool(0.2), u.old_event_id(rng, b)) {
                     (true, Some(old)) => old,
@@ -698,8 +699,10 @@ async fn gen_action<S: StateRead>(
             };
             // what: native / sequencer-origin denom-a / foreign voucher of this or the other channel, in trace or ibc/ spelling
             let base: Denom = if let Some(baddr) = bridge.as_ref() {
-                let basset = state.get_bridge_account_ibc_asset(&baddr.bytes()).await.ok()?;
-                u.assets.iter().find(|d| d.to_ibc_prefixed() == basset)?.clone()
+                match state.get_bridge_account_ibc_asset(&baddr.bytes()).await {
+                    Ok(basset) => u.assets.iter().find(|d| d.to_ibc_prefixed() == basset)?.clone(),
+                    Err(_) => u.assets[0].clone(), // not a bridge at all
+                }
             } else {
                 u.assets[[0usize, 0, 1, 4, 4][rng.gen_range(0..5)]].clone()
             };
